@@ -158,7 +158,8 @@ CLAIMED = {
            "guard_returns / guard_marks / key_ignores_depth state the mechanism of the recursion guard (a $ref at a visited key returns with the state untouched, following a $ref marks the key, "
            "the key reads the first two location nodes only). terminates_acyclic / returns_report: for documents without recursive definitions (every schema, $refs followed, at most d levels deep - "
            "Spec.fitsB, evaluated by the driver on every generated document: about half of them) the analyser does not run out of fuel d+1 and, with validity, returns a report. "
-           "Termination on RECURSIVE definitions is not closed by a theorem (the model recurses on fuel there; exercised by the sweep) - labelled partial."),
+           "For RECURSIVE structures the termination claim is FALSE of the code: recursion_through_allOf_is_unbounded proves that on one valid document (an inline schema reached again "
+           "through the allOf ancestry of a definition) the model yields no report for ANY fuel - the real command dies with a stack overflow (known finding, replayed from the corpus on every run)."),
   "note": DIFF_NOTE,
  },
  "C13": {
